@@ -50,6 +50,8 @@ QUICK = [
      "levels": [L(1, "F", VIS2, VIS2, anon=False), L(2, "F", VIS3, VIS2, anon=False), L(1, "F", VIS2)]},
     # the root module is itself a named symbol
     {"name": "named-root", "roots": ("a",), "levels": [L(2, "DF", VIS2, VIS2), L(1, "F", VIS2)]},
+    # the d2 space again with the second symbol name spelled as the EMPTY string
+    {"name": "d2-empty-name", "roots": (None,), "levels": [L(2, "DF", VIS3, VIS2, anon=False), L(2, "F", VIS2)], "spell_b": ""},
 ]
 THOROUGH = QUICK + [
     # the same shapes with the restrictions of the quick tier lifted one at a time
@@ -64,6 +66,20 @@ THOROUGH = QUICK + [
 ]
 
 _choice_cache: dict = {}
+# spelling used for the harness name "b" when IR and reference attributes are built; the "empty-name" configs re-run a
+# config with "b" spelled as the EMPTY STRING (a legal sym_name that is falsy in Python)
+_SPELL = {"b": "b"}
+
+
+def _set_spelling(b: str) -> None:
+    global _REFS
+    if _SPELL["b"] != b:
+        _SPELL["b"] = b
+        _REFS = None
+
+
+def _sp(n):
+    return _SPELL.get(n, n) if n is not None else None
 
 
 def choices(cfg_key, levels, i):
@@ -183,7 +199,7 @@ def build(root_name, body):
                 kids.append(mk(k2, n2, v2, s2, path + (j,), nd))
             nd.children = kids
             attrs = {"sym_visibility": StringAttr(vis)} if vis is not None else None
-            nd.op = ModuleOp([k.op for k in kids], attrs, StringAttr(name) if name is not None else None)
+            nd.op = ModuleOp([k.op for k in kids], attrs, StringAttr(_sp(name)) if name is not None else None)
             return nd
         nd.table = table
         extra = []
@@ -198,7 +214,7 @@ def build(root_name, body):
             ret = ReturnOp()
             extra = [outer, inner, ret]
             region = Region(Block([outer, ret]))
-        nd.op = FuncOp(name, ((), ()), region, vis)
+        nd.op = FuncOp(_sp(name), ((), ()), region, vis)
         for j, o in enumerate(extra):
             x = Node("x", None, None, path + (f"x{j}",))
             x.op = o
@@ -216,10 +232,10 @@ def _refs():
     out = []
     for d in (1, 2, 3):
         for names in itertools.product(REF_NAMES, repeat=d):
-            out.append((names, "SymbolRefAttr", SymbolRefAttr(names[0], list(names[1:]))))
+            out.append((names, "SymbolRefAttr", SymbolRefAttr(_sp(names[0]), [_sp(x) for x in names[1:]])))
     for n in REF_NAMES:
-        out.append(((n,), "str", n))
-        out.append(((n,), "StringAttr", StringAttr(n)))
+        out.append(((n,), "str", _sp(n)))
+        out.append(((n,), "StringAttr", StringAttr(_sp(n))))
     return out
 
 
@@ -533,7 +549,8 @@ def _shard(task) -> Stats:
     levels = cfg["levels"]
     st = Stats()
     ch = choices((tier, ci), levels, 0)
-    earlier = cfgs[:ci]
+    earlier = [c for c in cfgs[:ci] if c.get("spell_b", "b") == cfg.get("spell_b", "b")]
+    _set_spelling(cfg.get("spell_b", "b"))
     count = 0
 
     def one(root_name, body):
@@ -613,5 +630,6 @@ def run(ctx):
 def replay(rep) -> bool:
     root_name, body = rep["witness"]["tree"]
     st = Stats()
+    _set_spelling("" if str(rep["witness"].get("cfg", "")).endswith("empty-name") else "b")
     check_tree(st, root_name, body, rep["witness"].get("cfg", "?"))
     return rep["signature"] not in st.violations
